@@ -17,6 +17,7 @@ var (
 	fMode    = flag.String("verif.mode", "scenarios", "driver mode")
 	fWork    = flag.String("verif.work", "", "directory for scenario working directories (default: the system temp dir)")
 	fInplace = flag.Bool("verif.inplace", false, "run scenarios in the current directory (spliced-in run of another process)")
+	fHang    = flag.Duration("verif.hang", 0, "declare a hang after this long in one invocation (default 90s)")
 	fChild   = flag.String("verif.child", "", "child specification (crash-point enumeration)")
 )
 
@@ -34,6 +35,9 @@ func TestVerif(t *testing.T) {
 	}
 	Rec = rec
 	InstallSink(rec, CaptureHook)
+	if *fHang > 0 {
+		HangAfter = *fHang
+	}
 	StartWatchdog(rec)
 	rapid.VerifSetGate(GateFn)
 	switch *fMode {
